@@ -529,18 +529,7 @@ func registerNatives(in *Interp) {
 		return in.tb.False
 	}
 	n["(*sync.Mutex).TryLock"] = func(in *Interp, fn *ssa.Function, args []Value) Value { return in.tb.True }
-	n["(*sync.Once).Do"] = func(in *Interp, fn *ssa.Function, args []Value) Value {
-		p := args[0].(Ptr)
-		sv := in.load(p).(*StructV)
-		// field 0 is done atomic.Uint32 / Bool (struct); emulate with a marker on the object tag
-		if p.Obj.Tag == "once-done" {
-			return nil
-		}
-		_ = sv
-		p.Obj.Tag = "once-done"
-		in.callClosure(args[1].(*FuncV), nil)
-		return nil
-	}
+	// sync.Once runs from its own source (an atomic flag and a mutex)
 	// slog: every function and method is a no-op
 	n["crypto/sha256.New"] = func(in *Interp, fn *ssa.Function, args []Value) Value {
 		h := &hashState{}
